@@ -13,6 +13,24 @@ for d in sorted(glob.glob(os.path.join(V, "seeded", "*"))):
     rp = os.path.join(d, "result.json")
     if os.path.exists(rp):
         r = json.load(open(rp))
+    def fmt(r):
+        res = []
+        for p, v in r.get("results", {}).items():
+            vl = v.get("violation_lines") or []
+            kind = "exit %d" % v["exit"]
+            if vl:
+                kind = "VIOLATION" + (" (no-failing-input-found)" if "no-failing-input-found" in vl[0] else " with failing input")
+            elif v["exit"] == 0:
+                kind = "MISSED (exit 0)"
+            elif v["exit"] == 2:
+                kind = "TOOL ERROR (exit 2)"
+            res.append("%s: %s" % (p, kind))
+        return "; ".join(res)
+    extra = ""
+    for fn, label in (("result_rerun.json", "after strengthening"), ("result_inplace.json", "in place on /repo")):
+        fp = os.path.join(d, fn)
+        if os.path.exists(fp):
+            extra += " → %s: %s" % (label, fmt(json.load(open(fp))))
     res = []
     for p, v in r.get("results", {}).items():
         vl = v.get("violation_lines") or []
@@ -23,7 +41,7 @@ for d in sorted(glob.glob(os.path.join(V, "seeded", "*"))):
             kind = "MISSED (exit 0)"
         res.append("%s: %s" % (p, kind))
     rows.append("| %s | %s | %s | %s | %s |" % (n, m.get("property"), (m.get("summary") or "").replace("|", "/").replace("\n", " ")[:220],
-                (m.get("needs") or "").replace("|", "/").replace("\n", " ")[:160], "; ".join(res) or "not run (%s)" % r.get("mode", "-")))
+                (m.get("needs") or "").replace("|", "/").replace("\n", " ")[:160], ("first run: " + "; ".join(res) if res else "not run") + extra))
 print("| seeded change | property | what was changed | needs | result of the registered check |")
 print("|---|---|---|---|---|")
 print("\n".join(rows))
